@@ -145,10 +145,16 @@ func (e *execution[R]) ElapsedTime() time.Duration {
 }
 
 func (e *execution[R]) LastResult() R {
+	// Lock to guard against a race with the execution being canceled
+	e.mtx.Lock()
+	defer e.mtx.Unlock()
 	return e.lastResult
 }
 
 func (e *execution[R]) LastError() error {
+	// Lock to guard against a race with the execution being canceled
+	e.mtx.Lock()
+	defer e.mtx.Unlock()
 	if e.lastError == nil && e.ctx.Err() != nil {
 		return e.ctx.Err()
 	}
